@@ -40,7 +40,7 @@ var stressTypes = []int{sim.TGetMsgs, sim.TGetUserNameList, sim.TGetFileNameList
 
 func stressRun(run, nclients, nreq int, seed int64) ([]map[string]any, error) {
 	board := strings.Repeat("From someone (Jan01 00:00):\r\rlorem ipsum dolor sit amet\r__________________________________________________________\r", 400) // ~44 KiB
-	w, err := sim.NewWorld(sim.WorldOpts{Board: board, RealOutbox: true, Agreement: strings.Repeat("agree ", 2000)})
+	w, err := sim.NewWorld(sim.WorldOpts{Board: board, RealOutbox: true, Agreement: strings.Repeat("agree ", 7000)}) // ~41 KiB: larger than the 32 KiB copy buffer
 	if err != nil {
 		return nil, err
 	}
@@ -92,7 +92,30 @@ func stressRun(run, nclients, nreq int, seed int64) ([]map[string]any, error) {
 			}
 		}(i, c)
 	}
+	// late joiners: log in while the others are talking (the login sequence incl. the agreement is sent while
+	// broadcasts are already addressed to the new connection)
+	late := make([]*sim.Client, 4)
+	for i := range late {
+		wg.Add(1)
+		go func(i int) {
+			defer wg.Done()
+			time.Sleep(time.Duration(2+i*3) * time.Millisecond)
+			c := w.Dial("")
+			if _, err := c.Login(sim.LoginOpts{Login: "guest", Password: "", Name: fmt.Sprintf("late%d", i), Old: true}); err == nil {
+				late[i] = c
+			} else {
+				late[i] = c // keep the connection: its stream is judged all the same
+			}
+		}(i)
+	}
 	wg.Wait()
+	for _, c := range late {
+		if c != nil {
+			clients = append(clients, c)
+			reqs = append(reqs, nil)
+		}
+	}
+	nclients = len(clients)
 	// quiescence: no client has received a byte for a while (bounded)
 	deadline := time.Now().Add(60 * time.Second)
 	last := make([]int, nclients)
